@@ -189,6 +189,16 @@ func modeSeq(dir string, seed uint64, n int, w *os.File) {
 	if err != nil {
 		panic(err)
 	}
+	// a load before any save must not leave a store file behind that is not a complete snapshot
+	if _, err := st.Load(); err == nil {
+		if b, rerr := os.ReadFile(filepath.Join(dir, "data.json")); rerr == nil {
+			var probe store.PersistedData
+			if json.Unmarshal(b, &probe) != nil {
+				hutil.JSONLine(w, result{Kind: "seq", Case: -1, OK: false, Class: "fresh",
+					What: fmt.Sprintf("after a load on a fresh directory data.json exists (%d bytes) and is not a complete snapshot", len(b))})
+			}
+		}
+	}
 	var last *store.PersistedData
 	for i := 0; i < n; i++ {
 		d := genSnapshot(rng.Fork(), fmt.Sprintf("snap-%d", i), rng.Chance(1, 25))
